@@ -49,6 +49,11 @@ def templates(tier, seed=0):
     oobs = ['print(a)', 'print(b)', 'print(c)', 'print(l0)', 'print(a === b)', 'print(c["in"] === a)', 'print(a == b)', 'print(l0 === a.lst)']
     for k, setup in OBJ_SETUPS.items():
         ts.append(mk('obj-' + k, setup, OBJ_OPS, steps if k == 'alias' or tier == 'thorough' else 1, oobs))
+    # the [key, value] pair of every iteration is a fresh list
+    ts.append({'name': 'for-pair-fresh', 'src': 'kept := []\nfor p in [@h10@, @h11@, @h12@] {\n    kept += [p]\n}\nprint(kept)\nprint(kept[0] === kept[1])\nkept[0][1] = 99\nprint(kept[2])\nfs := []\nfor q in {"a": @h13@, "b": 2} {\n    fs += [fn () {\n        return q\n    }]\n}\nprint(fs[0]())\nprint(fs[1]())\nlast := null\nfor r in "xyz" {\n    if r[0] == 1 {\n        last = r\n    }\n}\nprint(last)\n'})
+    # items are evaluated (and spreads copied) left to right: a later sibling that mutates the spread operand comes too late
+    ts.append({'name': 'spread-then-mutate', 'src': 'xs := [@h10@, 2]\nfn bump() {\n    xs[0] = @h11@\n    return 7\n}\nys := [xs.., bump()]\nprint(ys)\nprint(xs)\nzs := [1]\nfn bump2() {\n    zs[0] = 100\n    return 0\n}\nfn show(a, b) {\n    return a\n}\nprint(show(zs.., bump2()))\no := {"k": 1}\nfn bump3() {\n    o.k = 5\n    return 0\n}\nprint({o.., "z": bump3()})\nprint([bump(), xs..])\n'})
+    ts.append({'name': 'concat-empty-fresh', 'src': 'xs := [@h10@, 2, 3]\nys := xs + []\nys[0] = 9\nprint(xs)\nzs := [] + xs\nprint(zs === xs)\nacc := []\nacc = acc + xs\nacc[1:3] = "ab"\nprint(xs)\nes := []\nfs := es + []\nprint(fs === es)\nt := "" + "s"\nprint(t)\n'})
     # immutable kinds: no operation on a copy is visible through the original
     ts.append({'name': 'immutable', 'src': 'n := @h10@\nm := n\nm += 1\nprint(n)\ns := "ab"\nt := s\nt += "c"\nprint(s)\nprint(t)\nxs := [n, s, true, null]\nys := xs + []\nys[0] = 0\nys[1] = "zz"\nprint(xs)\nfn f(p, q) {\n    p += 1\n    q += "x"\n    return p\n}\nf(n, s)\nprint(n)\nprint(s)\no := {"k": s}\nu := o.k\nu += "!"\nprint(o)\n'})
     # a closure and its definer share the captured container
